@@ -367,6 +367,10 @@ func (e *Enc) resolveLocal(name string, at *ssa.BasicBlock, env *SpecEnv) (SV, b
 		}
 	}
 	if bestV != nil {
+		if l := e.locs[bestV]; l != nil && l.Kind == "local" && strings.HasPrefix(l.Name, "map:") {
+			// Go maps are reference values held in a state variable: the spec sees the current content
+			return SV{t: env.state(l.Name), sort: e.g().SortOf(bestV.Type()), gt: bestV.Type()}, true
+		}
 		return SV{t: e.val(bestV), sort: e.g().SortOf(bestV.Type()), gt: bestV.Type()}, true
 	}
 	return SV{}, false
@@ -732,6 +736,34 @@ func (env *SpecEnv) call(x *SExpr) SV {
 		case "ithas":
 			return SV{t: fmt.Sprintf("(not (%s_nil (select %s %s)))", bs, ii.snap, argv(0).t), sort: "Bool"}
 		}
+	case "indom": // indom(m, k): key k is present in Go map m
+		a := argv(0)
+		if _, ok := g.mapKV[a.sort]; !ok {
+			env.fail("indom: not a map")
+			break
+		}
+		return SV{t: fmt.Sprintf("(select (%s_dom %s) %s)", a.sort, a.t, argv(1).t), sort: "Bool"}
+	case "visited": // visited(k): key k has been produced by the (single) map range of this function
+		var name string
+		for _, ri := range env.e.ranges {
+			if name != "" && name != ri.visited {
+				env.fail("visited: more than one map range in %s", env.e.fn.Name())
+			}
+			name = ri.visited
+		}
+		if name == "" {
+			// the range instruction may not have been encoded yet (clause evaluated before the loop): look for the state var
+			for n := range env.e.r.stSort {
+				if strings.HasPrefix(n, "visited:") {
+					name = n
+				}
+			}
+		}
+		if name == "" {
+			env.fail("visited: no map range in scope")
+			break
+		}
+		return SV{t: fmt.Sprintf("(select %s %s)", env.state(name), argv(0).t), sort: "Bool"}
 	case "klt":
 		g.DeclFun("klt", []string{bytesSort(g), bytesSort(g)}, "Bool")
 		return SV{t: fmt.Sprintf("(klt %s %s)", argv(0).t, argv(1).t), sort: "Bool"}
